@@ -1,4 +1,5 @@
 import BreezyVerif.Lemmas.C31D
+import BreezyVerif.Lemmas.C31E
 /-
 C31 — smart server clients cannot reach files outside the served directory.
 
@@ -555,5 +556,58 @@ theorem jail_invalid_utf8_sibling_witness :
 example : jailAllows (some [[114, 47]]) [114, 50, 47] = false := by decide
 example : jailAllows (some [[114, 47]]) [114, 47, 120, 47] = true := by decide
 example : jailAllows (some []) [114, 47] = false := by decide
+
+/-! ## the jail while several connections are served concurrently
+
+`jail_info` is a `threading.local` (`JailTL`: one slot per connection-handler thread).
+Traces are arbitrary interleavings of `setup_jail` / `teardown_jail` / control-directory opens
+of any number of threads. -/
+
+/-- whatever other threads do (any number of setups / teardowns / opens, in any order), this
+thread's jail is what it was -/
+theorem jail_other_threads_never_change_mine (st : JailTL) (ops : List JOp) (t : Tid)
+    (h : ∀ op ∈ ops, op.tid ≠ t) : (JailTL.final st ops) t = st t :=
+  JailTL.final_other st ops t h
+
+/-- NON-INTERFERENCE between connections: in every interleaved trace, the verdicts of the jail
+on thread `t`'s opens are exactly the verdicts it gets when its own operations run alone -/
+theorem jail_verdicts_are_per_connection (ops : List JOp) (t : Tid) :
+    (runTL JailTL.init ops).filter (fun r => r.1 == t)
+      = runTL JailTL.init (ops.filter (fun o => o.tid == t)) :=
+  runTL_projection _ _ ops t rfl
+
+/-- DURING A REQUEST the jail holds: after `setup_jail` on thread `t` with roots `roots`, and
+before `t` itself tears it down or sets it up again (`mid`: anything by other threads, opens
+by `t`), an open by `t` passes the hook iff `_pre_open_hook` admits it for `roots` — whatever
+happened before (`pre`) and whatever else is going on. -/
+theorem jail_holds_during_request (pre mid post : List JOp) (t : Tid) (roots : List Bytes) (url : Bytes)
+    (hmid : ∀ op ∈ mid, op.tid ≠ t ∨ op.writes = false) :
+    runTL JailTL.init (pre ++ .setup t roots :: (mid ++ .open_ t url :: post))
+      = runTL JailTL.init (pre ++ .setup t roots :: mid)
+        ++ (t, jailAllows (some roots) url)
+        :: runTL (JailTL.final JailTL.init (pre ++ .setup t roots :: mid)) post := by
+  have e : pre ++ JOp.setup t roots :: (mid ++ JOp.open_ t url :: post)
+      = (pre ++ JOp.setup t roots :: mid) ++ (JOp.open_ t url :: post) := by simp
+  rw [e, runTL_append]
+  congr 1
+  have hs : (JailTL.final JailTL.init (pre ++ JOp.setup t roots :: mid)) t = some roots := by
+    rw [JailTL.final_append]
+    simp only [JailTL.final]
+    rw [JailTL.final_nowrite _ mid t hmid]
+    simp [JailTL.step, JailTL.set]
+  simp only [runTL, hs]
+
+/-- SHARED-STATE VARIANT (a plain object instead of `threading.local`): connection 1's complete
+request (`setup`, `teardown`) in the middle of connection 0's request leaves connection 0
+unjailed — the URL outside the served directory passes the hook; with per-thread state it is
+refused. -/
+theorem jail_shared_state_witness :
+    let root : Bytes := [99, 58, 47, 47, 47]                        -- "c:///"
+    let outside : Bytes := [102, 105, 108, 101, 58, 47, 47, 47, 120, 47]  -- "file:///x/"
+    let trace := [JOp.setup 0 [root], .setup 1 [root], .open_ 1 root, .teardown 1, .open_ 0 outside, .teardown 0]
+    runShared none trace = [(1, true), (0, true)] ∧ runTL JailTL.init trace = [(1, true), (0, false)] := by
+  decide
+
+example : (∀ op ∈ [JOp.setup 1 [], .open_ 0 [1], .teardown 1], op.tid ≠ 0 ∨ op.writes = false) := by decide
 
 end BreezyVerif.C31
